@@ -82,10 +82,14 @@ def render(req):
 WORK = "@WORK@"  # placeholder for the scenario's working directory in generated requests (replay happens elsewhere)
 
 
+OUT = "@OUT@"  # placeholder for a scratch directory next to the image ("somewhere else on the host"), watched for changes
+
+
 def resolve(req, work):
-    """Copy of the request with the @WORK@ placeholder replaced in cwd and arguments."""
+    """Copy of the request with the @WORK@ / @OUT@ placeholders replaced in cwd and arguments."""
     r = dict(req)
-    r["args"] = [a.replace(WORK, work) for a in req["args"]]
+    out = os.path.join(os.path.dirname(work), "outside")
+    r["args"] = [a.replace(WORK, work).replace(OUT, out) for a in req["args"]]
     if req.get("cwd"):
         r["cwd"] = req["cwd"].replace(WORK, work)
     return r
@@ -589,7 +593,9 @@ class Scenario(Hooks):
         self.image = os.path.join(base, "image")
         self.temp = os.path.join(base, "temp")
         self.distdir = os.path.join(base, "distdir")
-        for d in (self.work, self.image, self.temp, self.distdir) + tuple(os.path.join(base, x) for x in extra_dirs):
+        self.outside = os.path.join(base, "outside")
+        for d in (self.work, self.image, self.temp, self.distdir, self.outside) + tuple(
+                os.path.join(base, x) for x in extra_dirs):
             os.makedirs(d)
         materialize(self.work, tree_spec)
         os.umask(_um)
@@ -608,6 +614,7 @@ class Scenario(Hooks):
     # hooks
     def before(self, rec):
         rec.pre = self.post
+        rec.outside_pre = snap(self.outside)
         rec.injected = None
         rec.fault_ops = []
         self.op.observer.msgs = []
@@ -623,6 +630,7 @@ class Scenario(Hooks):
             rec.fault_ops = self._inj.ops
             self._inj = None
         rec.post = snap(self.image)
+        rec.outside_post = snap(self.outside)
         rec.spawn = self.spawn.take()
         rec.msgs = list(self.op.observer.msgs)
         self.post = rec.post
